@@ -144,6 +144,8 @@ def run_concrete(ob, params, inputs):
     """Run the harness on concrete inputs against the real (unshimmed) libraries."""
     prev = symx.CTX
     ctx = symx.ConcreteCtx(inputs)
+    ctx.presets = params.get("_presets")
+    params = {k: v for k, v in params.items() if not k.startswith("_")}
     symx.set_ctx(ctx)
     try:
         with shim.off():
@@ -198,6 +200,8 @@ def explore_case(ob, params, pid, tier):
     t0 = time.time()
     listed = _listed_findings(pid)
     ctx = symx.Ctx(timeout_ms=ob.timeout_ms)
+    ctx.presets = params.get("_presets")
+    fn_params = {k: v for k, v in params.items() if not k.startswith("_")}
     symx.set_ctx(ctx)
     extras = ob.extras() if ob.extras else ()
     if ob.use_shims:
@@ -208,7 +212,7 @@ def explore_case(ob, params, pid, tier):
             ctx.begin()
             out = None
             try:
-                out = ob.fn(**params)
+                out = ob.fn(**fn_params)
             except symx.Infeasible:
                 st["infeasible"] += 1
             except Exception as e:
@@ -332,7 +336,15 @@ def _finish_path(ob, params, pid, ctx, out, st, listed):
             finally:
                 ctx.solver.pop()
         elif r == z3.unknown:
-            st["unknown_final"] += 1
+            # fall back to one query per part (smaller), then to nlsat on the path's assertions
+            verdicts = [_decide_part(ctx, z3.And(z3.Not(pv), z3.Not(excl))) for pv in parts.values()]
+            if any(v == "sat" for v in verdicts):
+                st["unknown_final"] += 1  # a per-part model exists; keep it inconclusive rather than guessing
+                st.setdefault("unknown_detail", []).append({"params": _jsonable(params), "sat_part": True})
+            elif any(v == "unknown" for v in verdicts):
+                st["unknown_final"] += 1
+                st.setdefault("unknown_detail", []).append(
+                    {"params": _jsonable(params), "parts": [k for k, v in zip(parts, verdicts) if v == "unknown"]})
 
     # 2. listed findings: still reproducible?
     for fid, reg in regions.items():
@@ -391,6 +403,26 @@ def _finish_path(ob, params, pid, ctx, out, st, listed):
         )
 
 
+def _decide_part(ctx, q):
+    q = z3.simplify(q, som=True)
+    if z3.is_false(q):
+        return "unsat"
+    r = ctx.check(q)
+    if r == z3.unknown:
+        t0 = time.time()
+        s2 = z3.Tactic("qfnra-nlsat").solver()
+        s2.set("timeout", 30000)
+        s2.add(ctx.solver.assertions())
+        s2.add(q)
+        try:
+            r = s2.check()
+        except z3.Z3Exception:
+            r = z3.unknown
+        ctx.t_solver += time.time() - t0
+        ctx.n_checks += 1
+    return "sat" if r == z3.sat else ("unsat" if r == z3.unsat else "unknown")
+
+
 def _alt_model(ctx, model, attempt):
     """Another model of the current path, pushing real inputs off the previous values."""
     cons = []
@@ -443,6 +475,12 @@ def run_property(pid, tier, obligations, meta, jobs=None, seed=0):
     t0 = time.time()
     _OBS = obligations
     items = [(oi, ci, pid, tier) for oi, ob in enumerate(obligations) for ci in range(len(ob.cases))]
+    def _cost(it):  # biggest cases first, so that the pool does not end on a long straggler
+        c = obligations[it[0]].cases[it[1]]
+        return -sum(v for k, v in c.items() if k in ("n", "m", "k", "N", "F", "R") and isinstance(v, int)) + (
+            0.5 if "_presets" in c else 0)
+
+    items.sort(key=_cost)
     jobs = jobs or int(os.environ.get("VERIF_JOBS", "0")) or min(16, os.cpu_count() or 4)
     results = []
     if jobs == 1 or len(items) == 1:
@@ -490,6 +528,9 @@ def _report(pid, tier, obligations, results, meta, wall, seed):
             samples += st.get("samples", [])[:1]
         patched.update(st.get("patched", []))
     vacuous = [name for name, po in per_ob.items() if not po["reach"]]
+    slowest = sorted(({"obligation": obligations[oi].name, "params": st.get("params"), "wall_s": st.get("wall_s", 0),
+                       "paths": st.get("paths", 0), "solver_s": st.get("solver_s", 0)} for oi, ci, st in results),
+                     key=lambda d: -d["wall_s"])[:5]
 
     # replay files + verdict lines
     os.makedirs(os.path.join(VERIF, "replays"), exist_ok=True)
@@ -562,6 +603,7 @@ def _report(pid, tier, obligations, results, meta, wall, seed):
             "stand_ins": meta.get("stand_ins", []),
             "patched_names": sorted(patched),
             "harness_errors": errors[:5],
+            "slowest_cases": slowest,
         },
         "assumptions": meta.get("assumptions", []),
         "wall_s": round(wall, 2),
